@@ -46,6 +46,32 @@ InitSessWit == /\ prog = SessWitness /\ res = Run(SessWitness) /\ sess = Session
                /\ cut = 1..(NItems(SessWitness) - 1) /\ entry = "eval"
 SpecSessWit == InitSessWit /\ [][UNCHANGED svars]_svars
 
+(* Directed family: function literals created in a loop at the top level of main (so,  *)
+(* in a session, at the GLOBAL scope) that capture the loop variable, a variable       *)
+(* defined in the loop body, or a global, and are called after the loop.  Whole and     *)
+(* piecewise evaluation must agree on each of them (every item its own chunk, and the   *)
+(* statements of main in one chunk).                                                    *)
+LoopKinds == {"for", "rng"}
+Captures  == {"loopvar", "bodyvar", "global", "bodyvar-updated"}
+ClosureLoop(lk, cap) ==
+    LET cbody == CASE cap = "loopvar" -> << [k |-> "ret", bare |-> FALSE, e |-> Var("i")] >>
+                   [] cap = "global"  -> << [k |-> "ret", bare |-> FALSE, e |-> Bin("add", Var("g0"), Var("i"))] >>
+                   [] OTHER           -> << [k |-> "ret", bare |-> FALSE, e |-> Var("y")] >>
+        pre   == IF cap \in {"bodyvar", "bodyvar-updated"}
+                 THEN << [k |-> "def", x |-> "y", e |-> Bin("mul", Var("i"), Lit(11))] >> ELSE <<>>
+        post  == IF cap = "bodyvar-updated" THEN << [k |-> "inc", x |-> "y", d |-> 1] >>
+                 ELSE IF cap = "global" THEN << [k |-> "inc", x |-> "g0", d |-> 1] >> ELSE <<>>
+        body  == pre \o << [k |-> "appclo", body |-> cbody] >> \o post
+    IN WProg("", <<>>,
+             << [k |-> "mkfs"],
+                [k |-> lk, v |-> "i", n |-> 3, lab |-> "", body |-> body],
+                [k |-> "callall"], [k |-> "printg"] >>)
+SessFamily == {ClosureLoop(lk, cap) : lk \in LoopKinds, cap \in Captures}
+InitSessFam == /\ prog \in SessFamily /\ res = Run(prog) /\ sess = SessionRun(prog)
+               /\ cut \in {1..(NItems(prog) - 1), 1..NDecl}
+               /\ entry \in {"eval", "compile-execute"}
+SpecSessFam == InitSessFam /\ [][UNCHANGED svars]_svars
+
 \* all cuts of one program (exhaustive tier over a fixed corpus is driven by the harness:
 \* it asks for every subset when the program is small)
 
